@@ -218,11 +218,12 @@ def rule_r2(ctx, an: Anchors, rule: str = "C04.R2") -> None:
     init = an.ctx_method("__init__")
     flag = an.generated_flag
     binds = []
-    for n in walk_own(init.node):
-        if isinstance(n, (ast.Assign, ast.AnnAssign)):
-            targets = n.targets if isinstance(n, ast.Assign) else [n.target]
-            if any(self_attr(t) == an.resource_table for t in targets) and n.value is not None:
-                binds.append(n)
+    for h in an.init_closure:
+        for n in walk_own(h.node):
+            if isinstance(n, (ast.Assign, ast.AnnAssign)):
+                targets = n.targets if isinstance(n, ast.Assign) else [n.target]
+                if any(self_attr(t) == an.resource_table for t in targets) and n.value is not None:
+                    binds.append(n)
     if not binds:
         rep.unrecognised(rule, init, init.node, "constructor never binds the resource table")
         return
